@@ -271,13 +271,25 @@ class C06(Property):
         await sd.save_tokens(context, p_in, [t for t in toks if not isinstance(t, IterationTerminationToken)])
         feed = [("x", t) for t in toks] + [("x", TerminationToken(Status[case["status"]]))]
         words.append(f"t:{case['status']}")
-        hung = False
+        # everything is on the (single, FIFO) port; the step either terminates, or ends up blocked on `get` with an empty queue
+        # after having taken its termination token: then nothing can ever wake it up — a hang, detected exactly (no time bound)
+        for _, t in feed:
+            p_in.put(t)
+        task = asyncio.create_task(step.run())
         try:
-            await sd.drive(step, feed, imposed=False, budget_s=2.0 if case.get("hang_ok") else 30.0)
-        except sd.StepHang:
-            if not case.get("hang_ok"):
-                raise
-            hung = True
+            await sd.settle(step, task, ["x"], budget_s=60.0)
+            hung = not task.done()
+            if not hung:
+                task.result()
+        finally:
+            if not task.done():
+                task.cancel()
+                try:
+                    await task
+                except BaseException:  # noqa: BLE001
+                    pass
+        if hung and not case.get("hang_ok"):
+            ctx.fail("loopout:hang", "the step took its termination token and is blocked on its input port for ever", case)
         out = list(p_out.token_list)
         self._lines.append(f"loopout {case['method']} " + " ".join(words))
         self._expect.append((self._render(out, ids, hung), case))
